@@ -166,8 +166,14 @@ def check(env, rep, tier):
             for nm_ in ("write_str", "write_char", "write_fmt"):
                 I.extra_models["core::fmt::Write::" + nm_] = m_sink_write
 
+            invented = []
+
             def store_hook(I_, ctx, s, place, v, site):
                 if place == slot:
+                    # an error goes into the slot only on a path on which a sink write failed: the writer reports sink
+                    # failures, it does not invent errors of its own (a fault-free run ends in success)
+                    if isinstance(v, EnumV) and list(v.variants) == [1] and not s.ghost.get(("inj", "unrecorded")) and slot_state(s) == {0}:
+                        invented.append(site)
                     # the pending failure is recorded when an error goes into the slot (a store of None records nothing)
                     if not (isinstance(v, EnumV) and list(v.variants) == [0]):
                         s.ghost.pop(("inj", "unrecorded"), None)
@@ -179,6 +185,10 @@ def check(env, rep, tier):
             fin = []
             I.return_hooks[body["id"]] = lambda I_, ctx, outs: fin.extend((s_.copy(), rv_) for s_, rv_ in outs if ctx.depth == 0)
             I, res = run(prog, body, args=args, st=st, I=I, gargs=gargs)
+            rep.ob("C18.1", "%s|only-sink-failures-recorded" % body["path"], not invented,
+                   "%s puts an error into the slot on a path on which no sink write failed (at %s): a fault-free run can end in Err with an "
+                   "incomplete document" % (body["path"], sorted(set("%s:%s" % (x["file"], x["line"]) for x in invented))[:3]),
+                   {"file": body["span"]["f"], "line": body["span"]["l"], "fn": body["path"]})
             lost = sum(1 for s_, rv_ in fin if s_.ghost.get(("inj", "unrecorded")))
             rep.ob("C18.1", "%s|failure-recorded" % body["path"], lost == 0,
                    "%s can return on %d path(s) on which a sink write failed and the failure was never put into the error slot "
